@@ -69,6 +69,8 @@ def evaluate(v: Variant, root: str) -> dict:
     try:
         prog = Program(root=root, sources=srcs)
         scratch = Run(prop=v.prop, quiet=True, write_evidence=False)
+        # a breaking variant names the rule that must report it: the enumerating rules (E13-E15) are skipped when another rule is expected
+        scratch.focus = v.expect if v.expect not in ("silent", "missed") else None
         checks.REGISTRY[v.prop](scratch, prog)
     except Exception as e:  # noqa: BLE001
         return {"variant": v.name, "expected": v.expect, "got": f"crashed: {type(e).__name__}: {e}", "ok": False}
